@@ -117,7 +117,7 @@ def run_texts(rep, texts, tag):
                         steps.append({"op": "execute", "lang": lang, "text": l})
                         owners.append((k, li))
             cases.append({"id": "%s.%d" % (tag, len(cases)), "cfg": texts[idxs[0]][2], "steps": steps, "_owners": owners})
-    obs = run_harness_stable_day([{k: v for k, v in c.items() if not k.startswith("_")} for c in cases], tag, jobs=8, timeout_s=30)
+    obs = run_harness_stable_day([{k: v for k, v in c.items() if not k.startswith("_")} for c in cases], tag, jobs=8, timeout_s=45)
     whole = {}
     alone = {}
     for case, o in zip(cases, obs):
@@ -204,7 +204,7 @@ def run_texts(rep, texts, tag):
 
 def run_texts_raw(texts, tag):
     cases = [{"id": "%s.%d" % (tag, i), "cfg": cfg, "steps": [{"op": "execute", "lang": lang, "text": t}]} for i, (t, lang, cfg) in enumerate(texts)]
-    obs = run_harness_stable_day(cases, tag, jobs=8, timeout_s=30)
+    obs = run_harness_stable_day(cases, tag, jobs=8, timeout_s=45)
     return [(o.get("steps") or [{"outcome": o.get("outcome", "crash"), "panic": o.get("panic"), "why": o.get("why")}])[0] for o in obs]
 
 
@@ -216,7 +216,7 @@ def run(rep):
                 "fuzz part adds random UTF-8, dictionary words, regex-shaped fragments and mutated test lines. A case = one text under one language and configuration; non-trivial = "
                 "the text is not blank." % len(A))
     rep.assumptions = ["TLA+ cannot observe Rust panics or non-termination: that half is exploration driven by the model's alphabet (evidence says so); the slot structure is validated by TLC",
-                       "lines are at most 256 characters; a worker that dies or exceeds 30 s is an observation (crash / hang)", "custom rules are outside C01's configuration space", "TLC 1.8.0"]
+                       "lines are at most 256 characters; a worker that dies or exceeds 45 s is an observation (crash / hang)", "custom rules are outside C01's configuration space", "TLC 1.8.0"]
     r = tlc_must_pass("MC_SmartCalc", "MC_SmartCalc", workers=8, timeout=1500)
     rep.add_tlc("MC_SmartCalc(safety)", r)
     r = tlc_must_pass("MC_SmartCalc", "MC_SmartCalc_live", workers=8, timeout=900)
